@@ -132,16 +132,22 @@ func (r *beRun) modeConcQuiet() {
 	e.checkPanics()
 
 	cyclesDuring := r.janitor.Wakes
-	explicitTTL := false
+	explicitTTL, expiredAll := false, false
 
 	for _, rec := range r.recs {
 		if rec.kind == "write" && rec.op.HasTTL && rec.op.TTLNs != 0 {
 			explicitTTL = true
 		}
+
+		if rec.kind == "expireAll" && rec.done {
+			expiredAll = true
+		}
 	}
 
 	// is the delete-expired scan documented to run? (UnlimitedTTL skips it until an expiration was set)
-	scanDocumented := cfg.TTLNs != -1 || explicitTTL
+	// (an ExpireAll that found entries set expirations too; whether it found any is not known here, so it
+	// only counts when the snapshot before a quiet cycle shows an entry with an expiration)
+	scanDocumented := cfg.TTLNs != -1 || explicitTTL || expiredAll
 	evictPossible := cfg.CountSoftLimit > 0 || cfg.EvictionNeeded != nil || cfg.HeapLimit == 1 || cfg.SysLimit == 1
 	dea := cfg.DeleteExpiredAfterNs
 	frac := cfg.EvictFraction
